@@ -352,6 +352,26 @@ func (g *pgen) body(depth int, maxLen int) []any {
 	if g.r.Intn(8) == 0 {
 		return []any{}
 	}
+	if g.r.Intn(8) == 0 {
+		// a body that only sets variables, laid out with line breaks and indentation: the white space is output as any text is
+		out := []any{}
+		ws := func() {
+			if g.r.Intn(4) > 0 {
+				out = append(out, nText(pick(g.r, []string{" ", "\n  ", "\n", "  ", "\t", "\n\n"})))
+			}
+		}
+		for k := 1 + g.r.Intn(2); k > 0; k-- {
+			ws()
+			name := pick(g.r, []string{"n", "m", "s", "zz", "w"})
+			if g.r.Intn(3) == 0 && !g.trims {
+				out = append(out, J{"t": "capture", "name": bs(name), "body": []any{nText(pick(g.r, []string{" ", "c", "\n"}))}})
+			} else {
+				out = append(out, g.withTrims(J{"t": "assign", "name": bs(name), "e": g.expr(1)})...)
+			}
+		}
+		ws()
+		return out
+	}
 	return g.seq(depth, maxLen)
 }
 
